@@ -16,7 +16,7 @@ type c11 struct{}
 func (c11) ID() string    { return "C11" }
 func (c11) Level() string { return "exploration" }
 func (c11) Rule() string {
-	return "20 default-able facts (default network membership; implicit default network; <project>_<key> names of network/volume/secret/config; depends_on implied by links, network_mode/ipc/pid service: namespaces, volumes_from; build context; dockerfile; port protocol; port mode; secret target; depends_on required; env_file required; device count; pull_policy alias), each carried by its own service: every subset of <=3 facts left implicit and every subset of <=3 facts written explicitly (thorough: all 2^14 subsets of the first 14), delivered by main file / override / include; oracle: implicit model == all-explicit model. Plus, per fact, an explicit non-default value that must survive, an implied depends_on that must not replace a declared one, and the `default` network present iff used. distinct = distinct subsets x origins"
+	return "26 default-able facts (default network membership; implicit default network; <project>_<key> names of network/volume/secret/config; depends_on implied by links, network_mode/ipc/pid service: namespaces, volumes_from; build context; dockerfile; port protocol; port mode; secret target; depends_on required; env_file required; device count; pull_policy alias), each carried by its own service: every subset of <=3 facts left implicit and every subset of <=3 facts written explicitly (thorough: all 2^14 subsets of the first 14), delivered by main file / override / include; oracle: implicit model == all-explicit model. Plus, per fact, an explicit non-default value that must survive, an implied depends_on that must not replace a declared one, and the `default` network present iff used. distinct = distinct subsets x origins"
 }
 func (c11) Assumptions() []string {
 	return []string{"projects compared with go-cmp (EquateEmpty) over all model fields"}
@@ -56,6 +56,12 @@ func c11facts() []c11fact {
 		{name: "volume-name", svc: "    image: i\n    volumes: [\"vol:/v\"]\n", svcExpl: "    image: i\n    volumes: [\"vol:/v\"]\n", top: "volumes:vol:{}", topExpl: "volumes:vol:{name: proj_vol}"},
 		{name: "secret-name", svc: "    image: i\n", svcExpl: "    image: i\n", top: "secrets:sec:{file: ./s}", topExpl: "secrets:sec:{file: ./s, name: proj_sec}"},
 		{name: "config-name", svc: "    image: i\n", svcExpl: "    image: i\n", top: "configs:cfg:{content: c}", topExpl: "configs:cfg:{content: c, name: proj_cfg}"},
+		{name: "volume-external-false", svc: "    image: i\n", svcExpl: "    image: i\n", top: "volumes:evol:{}", topExpl: "volumes:evol:{external: false, name: proj_evol}"},
+		{name: "network-external-false", svc: "    image: i\n", svcExpl: "    image: i\n", top: "networks:enet:{}", topExpl: "networks:enet:{external: false, name: proj_enet}"},
+		{name: "secret-external-false", svc: "    image: i\n", svcExpl: "    image: i\n", top: "secrets:esec:{file: ./s}", topExpl: "secrets:esec:{file: ./s, external: false, name: proj_esec}"},
+		{name: "config-external-false", svc: "    image: i\n", svcExpl: "    image: i\n", top: "configs:ecfg:{content: c}", topExpl: "configs:ecfg:{content: c, external: false, name: proj_ecfg}"},
+		{name: "volume-external-false-unnamed", svc: "    image: i\n", svcExpl: "    image: i\n", top: "volumes:evol2:{external: false}", topExpl: "volumes:evol2:{name: proj_evol2}"},
+		{name: "network-external-false-unnamed", svc: "    image: i\n", svcExpl: "    image: i\n", top: "networks:enet2:{external: false}", topExpl: "networks:enet2:{name: proj_enet2}"},
 		{name: "depends-on-from-links", svc: "    image: i\n    links: [t]\n", svcExpl: "    image: i\n    links: [t]\n    depends_on:\n      t: {" + c11dep + "}\n",
 			nonDef: "    image: i\n    links: [\"t:alias\"]\n" + declared, nonDefOK: depCheck},
 		{name: "depends-on-from-network-mode", svc: "    image: i\n    network_mode: \"service:t\"\n", svcExpl: "    image: i\n    network_mode: \"service:t\"\n    depends_on:\n      t: {" + c11dep + "}\n",
